@@ -62,7 +62,7 @@ def poly_case(draw):
     nref = draw(st.integers(1, 5))
     Nf = 4 * (n + 1) + draw(st.integers(0, 300))
     if draw(st.integers(0, 5)) == 0:  # long spectra (segment lengths up to 8192 are ordinary): kept small in the other dimensions
-        Nf = draw(st.sampled_from([1025, 1500, 2049, 3000, 4097]))
+        Nf = draw(st.sampled_from([1025, 1500, 2049, 3000, 4097, 5000, 8193]))
         n, nch, nref = min(n, 3), min(nch, 3), min(nref, 2)
     return {"n": n, "nch": nch, "nref": nref, "sgn": draw(st.sampled_from([-1, 1])),
             "Nf": Nf, "dt": 10.0 ** draw(st.floats(-3, 1)), "extra_ord": draw(st.integers(0, 2)),
@@ -223,9 +223,10 @@ def judge_poles(case):
 
 @st.composite
 def wiring_case(draw):
-    return {"nch": draw(st.integers(2, 4)), "N": draw(st.integers(1200, 2500)), "nxseg": draw(st.sampled_from([128, 256])),
+    nx = draw(st.sampled_from([128, 256, 129, 255]))
+    return {"nch": draw(st.integers(2, 4)), "N": draw(st.integers(1200, 2500)), "nxseg": nx,
             "method": draw(st.sampled_from(["per", "cor"])), "ordmax": draw(st.integers(2, 8)), "fs": draw(st.sampled_from([1.0, 50.0, 333.0])),
-            "seed": draw(st.integers(0, 2**32 - 1)), "pov": draw(st.sampled_from([0.5, 0.25]))}
+            "seed": draw(st.integers(0, 2**32 - 1)), "pov": 0.0 if nx % 2 else draw(st.sampled_from([0.5, 0.25]))}  # odd segment lengths: no overlap (integer nxseg*pov)
 
 
 def judge_wiring(case):
@@ -239,7 +240,7 @@ def judge_wiring(case):
     r = sut(ss.run_by_name, "a")
     if not j.check(not raised(r), "wiring-run-raises", lambda: f"{r!r}"):
         return j
-    j.tag(case["method"])
+    j.tag(case["method"], "odd-nxseg" if case["nxseg"] % 2 else "even-nxseg")
     j.nontrivial(True)
     res = alg.result
     dt = 1.0 / case["fs"]
